@@ -1,7 +1,7 @@
 """C05 - concatenation keeps each operand's per-character styles; no bleed at the seam."""
 from .. import obs as O
 from .common import (Contract, ansi_values, history, run_cases, tier_sizes, safe_obs, is_ansi, is_plain_str,
-                     render_failures, GROUP_CODES)
+                     render_failures, GROUP_CODES, small_scope_values, small_scope_on)
 
 PROP = 'C05'
 RULE = ('case = one a + b, a += b or join(x1..xn) on reachable operands (AnsiString/AnsiStr/str; equal, '
@@ -248,6 +248,30 @@ def drive(ctx, mon, tier, only_case=None):
     sz = tier_sizes(tier)
 
     def body(rng, ex, case):
+        if case == 0:
+            # bounded-exhaustive part: every pair of one-apply small-scope values concatenated (and their slices at
+            # every cut), every two-apply value split at every k and re-joined
+            m = small_scope_on(ctx, tier)
+            with mon.quiet():
+                ones = [v for v, _ in small_scope_values(L, 1)]
+            nsh = ctx.extra.get('nshards', 1)
+            npairs = 0
+            for i, a in enumerate(ones):
+                if i % nsh != ctx.shard:
+                    continue
+                for b in ones:
+                    npairs += 1
+                    a + b
+                    if m >= 2:
+                        with mon.quiet():
+                            x, y = a[1:3], b[0:2]
+                        x + y
+                        L.AnsiStr.join(x, y, 'q')
+            ctx.extra['n_small_scope_pairs'] = npairs
+            if m >= 2:
+                for v, _ in small_scope_values(L, 2, ctx.shard, nsh):
+                    split_rejoin_probe(ctx, mon, v, rng)
+            return
         profile = 'mixed' if rng.random() < 0.3 else 'wf'
         # small setting vocabulary makes equal / reordered seams frequent
         history(L, rng, ex, rng.randint(2, sz['nops']), sz['maxlen'], profile, WEIGHTS)
